@@ -224,6 +224,19 @@ func (f *File) Read(n int) (rt.Value, error) {
 			return rt.NilValue, err
 		}
 	}
+	if n > maxReadPrealloc {
+		// The count is chosen by the program and may be much more than what
+		// the file contains (or than the memory available), so do not allocate
+		// it up front but let the buffer grow as the data comes.
+		b, err := io.ReadAll(io.LimitReader(f.reader, int64(n)))
+		if err != nil {
+			return rt.NilValue, err
+		}
+		if len(b) == 0 {
+			return rt.NilValue, io.EOF
+		}
+		return rt.StringValue(string(b)), nil
+	}
 	b := make([]byte, n)
 	n, err := io.ReadFull(f.reader, b)
 	if err == nil || err == io.ErrUnexpectedEOF {
@@ -231,6 +244,10 @@ func (f *File) Read(n int) (rt.Value, error) {
 	}
 	return rt.NilValue, err
 }
+
+// Largest read count for which File.Read allocates the whole buffer before
+// reading.
+const maxReadPrealloc = 1 << 16
 
 // ReadAll attempts to read the whole file and return a lua string containing
 // it.
